@@ -606,3 +606,18 @@ Example replay_order_with_first_record_time_refuted :
   map p_ts (feed [(20, unsorted_capture)] later_packet) = [15; 10; 20] /\
   map p_ts (feed [(pi_min (info_of 0 unsorted_capture), unsorted_capture)] later_packet) = [10; 15; 20].
 Proof. vm_compute. split; reflexivity. Qed.
+
+(* ------------------------------------------------------------------ the oldest time of a BATCH is the minimum over ALL its captures *)
+(* Import.import folds N.min over every capture of the batch; [snapshot_transparency] uses it ([new_packets_min],
+   [fold_min_infos]): the chosen snapshot is not younger than ANY new packet.  With the first capture only, a batch
+   [late, early] picks a snapshot that is younger than packets of early: *)
+Theorem batch_oldest_is_min_over_all_captures : forall (i0 : pcapinfo) rest i,
+  In i (i0 :: rest) -> fold_left (fun m i => N.min m (pi_min i)) (i0 :: rest) (pi_min i0) <= pi_min i.
+Proof. intros i0 rest i H. apply (proj2 (fold_min_infos (i0 :: rest) (pi_min i0))). exact H. Qed.
+
+Example snapshot_choice_with_first_capture_only_refuted :
+  let snaps := [mkSnap 50 []; mkSnap 1000 []] in
+  let batch := [mkPcap 3 1200 1300; mkPcap 1 100 200] in           (* [late, early] *)
+  option_map sn_ts (best_snapshot snaps (fold_left (fun m i => N.min m (pi_min i)) batch 1200) None) = Some 50 /\
+  option_map sn_ts (best_snapshot snaps 1200 None) = Some 1000.
+Proof. vm_compute. split; reflexivity. Qed.
